@@ -369,6 +369,10 @@ func (e *Eval) evalBin(n *EBin) tv {
 	case "*":
 		return tv{Mul(a, b), nil}
 	case "/":
+		if !isLiteralTerm(b) {
+			// same uninterpreted quotient the executor uses for a symbolic divisor
+			return tv{app(SInt, "sdiv", a, b), nil}
+		}
 		return tv{app(SInt, "div", a, b), nil}
 	case "%":
 		return tv{app(SInt, "mod", a, b), nil}
